@@ -24,7 +24,7 @@ LIBFLAGS = ["-std=c++14", "-g", "-O1", "-D" + GUARD, "-fsanitize=fuzzer-no-link"
 HARFLAGS = ["-std=c++17", "-g", "-O1", "-D" + GUARD, "-Wno-deprecated-declarations"] + SAN
 FUZFLAGS = ["-std=c++17", "-g", "-O1", "-D" + GUARD, "-fsanitize=fuzzer"] + SAN
 ASAN_ENV = ("handle_segv=1:handle_abort=1:handle_sigfpe=1:detect_leaks=0:allocator_may_return_null=1:"
-            "abort_on_error=0:print_summary=1:symbolize=1:detect_stack_use_after_return=0:max_allocation_size_mb=2048")
+            "abort_on_error=0:print_summary=1:symbolize=1:detect_stack_use_after_return=0:max_allocation_size_mb=2048:malloc_context_size=5")
 UBSAN_ENV = "print_stacktrace=1:halt_on_error=1"
 
 PROPS = ["C%02d" % i for i in range(1, 21)]
